@@ -25,10 +25,10 @@ META = {
     "gates": {
         "quick": {"evaluations": 200000, "events_replayed": 50000, "failures_checked": 20000,
                   "slice_events": 2000, "history_ops": 20000},
-        "thorough": {"evaluations": 3000000, "events_replayed": 800000, "failures_checked": 300000,
-                     "slice_events": 30000, "history_ops": 500000},
+        "thorough": {"evaluations": 10000000, "events_replayed": 3000000, "failures_checked": 1000000,
+                     "slice_events": 100000, "history_ops": 3000000},
     },
-    "exhaustive_parts": "all single operations on lists of length 0..5 (quick) / 0..7 (thorough) "
+    "exhaustive_parts": "all single operations on lists of length 0..5 (quick) / 0..8 (thorough) "
                         "over the index/slice/replacement grid described in rule",
     "assumptions": ["built-in list is the sequential specification",
                     "items are compared by identity; validators are pure functions"],
@@ -465,7 +465,7 @@ def install_contract(ctx):
 
 def run(ctx):
     install_contract(ctx)
-    Lmax = ctx.scale(5, 7)
+    Lmax = ctx.scale(5, 8)
     events = []
     # ---- exhaustive single operations -----------------------------------
     gi = 0
@@ -492,7 +492,7 @@ def run(ctx):
             finally:
                 ctx.end()
     # ---- random histories -------------------------------------------------
-    nh = ctx.scale(4000, 120000)
+    nh = ctx.scale(4000, 600000)
     for h in range(nh):
         if not ctx.mine(h):
             continue
